@@ -3,9 +3,11 @@
    plain OCaml implementation (FIPS 180-4 / RFC 2104). *)
 open Conv
 
-(* C04_MODEL=pinned runs the model of the tree before the C04 repairs *)
-let pinned = (try Sys.getenv "C04_MODEL" = "pinned" with Not_found -> false)
-let variant = if pinned then RtmpSession.sv_pinned else RtmpSession.sv_fixed
+(* C04_MODEL=pinned runs the model of the tree before the C04 repairs,
+   C04_MODEL=premem the repaired tree with the composer's old memory rule *)
+let model_env = (try Sys.getenv "C04_MODEL" with Not_found -> "")
+let variant = if model_env = "pinned" then RtmpSession.sv_pinned
+  else if model_env = "premem" then RtmpSession.sv_premem else RtmpSession.sv_fixed
 
 (* ---- SHA-256 ---------------------------------------------------------- *)
 let k256 = [|
@@ -101,6 +103,10 @@ let site_name (s : BinNums.coq_N) : string =
   | 43 -> "panic@connection.(*connection).ModWriteChanSize:explicit"
   | 44 -> "panic@connection.(*connection).ModReadTimeoutMs:explicit"
   | 45 -> "panic@connection.(*connection).ModWriteTimeoutMs:explicit"
+  | 101 -> "panic@base.RtmpMsg.IsAvcKeySeqHeader:index"
+  | 102 -> "panic@base.RtmpMsg.IsHevcKeySeqHeader:index"
+  | 108 -> "panic@base.RtmpMsg.IsAacSeqHeader:index"
+  | 110 -> "panic@base.RtmpMsg.AudioCodecId:index"
   | k -> Printf.sprintf "panic %d" k
 
 let show_outcome = function
@@ -167,16 +173,28 @@ let session (args : string list) : string =
         let ha = Array.of_list hack in
         Stdlib.List.init 1528 (fun i -> ha.(i mod hl))
       end in
+    let pol = String.sub policy 0 1 in
+    let opts = String.sub policy 1 (String.length policy - 1) in
+    let trace = String.length opts > 0 && opts.[0] = 't' in
+    let opts = if trace then String.sub opts 1 (String.length opts - 1) else opts in
+    let (lastack0, seq0) =
+      if String.length opts > 0 && opts.[0] = '@' then
+        (match String.split_on_char ':' (String.sub opts 1 (String.length opts - 1)) with
+         | [a; b] -> (n_of_token a, n_of_token b)
+         | _ -> failwith "bad ack preset")
+      else (n_of_int 0, n_of_int 0) in
     let env = { RtmpSession.e_ver = ver; e_rnd = rnd; e_now = n_of_int 0;
-                e_accept = (policy <> "R"); e_install = (policy = "A") } in
+                e_accept = (pol <> "R"); e_install = (pol = "A"); e_trace = trace;
+                e_lastack0 = lastack0; e_seq0 = seq0 } in
     let input = bytes_of_token data in
     let r = RtmpSession.run_session hmac variant env input in
     let sh = match RtmpSession.handle_tcp_connect hmac variant env input with
       | Some evs -> show_kinds evs
       | None -> show_kinds r.RtmpSession.r_ev ^ "!" ^ show_outcome r.RtmpSession.r_out in
     let evs = match r.RtmpSession.r_ev with [] -> "-" | l -> String.concat ";" (Stdlib.List.map show_ev l) in
-    Printf.sprintf "%s hs=%s ev=%s w=%s sh=%s" (show_outcome r.RtmpSession.r_out) (show_hs r.RtmpSession.r_hs)
+    Printf.sprintf "%s hs=%s ev=%s w=%s sh=%s mem=%s:%s" (show_outcome r.RtmpSession.r_out) (show_hs r.RtmpSession.r_hs)
       evs (token_of_bytes (Stdlib.List.concat r.RtmpSession.r_wr)) sh
+      (token_of_n (RtmpSession.mem_reserved r.RtmpSession.r_mem)) (token_of_n (RtmpSession.mem_streams r.RtmpSession.r_mem))
   | _ -> failwith "c04.sess: policy cfg bytes"
 
 let register () =
